@@ -14,10 +14,13 @@ META = {
               'server id of 0..3 arbitrary scalar values, 16-byte secret, '
               'key of 0..8 bytes for the hashed-message check; the hex '
               'rendering is decided per (sign x digit count) class: 82 '
-              'classes; W=192',
+              'classes; a key that parses as a valid RSA key and whose '
+              'canonical re-encoding is arbitrary (E-der; replay: a real '
+              'PKCS#1-encoded key); W=192',
     'outside': 'SHA-1 itself (hashlib, uninterpreted: an arbitrary 20-byte '
                'value); server ids longer than 3 characters',
     'assumptions': [
+        'E-struct: struct in encryption.py shadowed by the struct model; '
         'E-sha1: hashlib.sha1 replaced by a recorder whose digest is 20 '
         'fresh symbolic bytes; hashlib trusted to compute SHA-1',
         "format(n, 'x') and int.from_bytes are exact models (witness replay "
@@ -51,7 +54,8 @@ def _load_der(data, backend=None):
 def shadows(sh, params):
     import minecraft.networking.encryption as enc
     sh.install(enc, sha1=models.Sha1Model, int=models.sym_int,
-               format=models.sym_format, load_der_public_key=_load_der)
+               format=models.sym_format, load_der_public_key=_load_der,
+               struct=models.StructModel())
 
 
 _REAL_KEY = []
